@@ -27,12 +27,12 @@ theorem get_none_of_gt {t : HTable} {c : Nat} (h : t.WF c) (k : Nat) (hk : c < k
 
 /-- what `setSess h s` does to one entry -/
 def updSess (h : Nat) (s : Sess) (k : Nat) (e : Ent) : Ent :=
-  if k == h then (match e with | .sess _ => Ent.sess s | x => x) else e
+  if k == h then replSess s e else e
 
 theorem get_setSess (t : HTable) (h : Nat) (s : Sess) (k : Nat) :
     (t.setSess h s).get k = (t.get k).map (updSess h s k) := by
   unfold HTable.setSess HTable.get
-  exact lookup_map_keep (fun e : Nat × Ent => if e.1 == h then (match e.2 with | .sess _ => Ent.sess s | x => x) else e.2) t k
+  exact lookup_map_keep (fun e : Nat × Ent => if e.1 == h then replSess s e.2 else e.2) t k
 
 theorem get_mintAll_old {t : HTable} {c : Nat} (h : t.WF c) (slot hs : Nat) (os : List Obj) (k : Nat) (hk : k ≤ c) :
     (mintAll t c slot hs os).get k = t.get k := by
